@@ -167,20 +167,20 @@ def printReal (re : Rat) (unit : List Char) (precision : Nat) : List Char :=
   (cfgOfCall print_real_call0 unit precision).str re
 
 /-- `print_sinosoidal` (Display.py:39-57).  Parameters (libm / float arithmetic):
-`absV = abs(value)`, `phase = phase(value) (+ -pi/2 if sin)`, `phaseDeg = degrees(phase)`,
-`wHz = w/2/pi`. -/
-def printSinusoidal (absV phase phaseDeg w wHz : Rat) (unit : List Char) (precision : Nat)
+`absV = abs(value)`, `phase = phase(value) (+ print_sinosoidal_sin_shift·pi/2 if sin)`, `phaseDeg = degrees(phase)`,
+`wHz = w/2/pi`; `re = value.real` (shown with its sign when `w = 0`). -/
+def printSinusoidal (re absV phase phaseDeg w wHz : Rat) (unit : List Char) (precision : Nat)
     (sin deg hertz : Bool) : List Char :=
   let label := (cfgOfCall print_sinosoidal_call0 unit precision).str absV
-  if w = 0 then label
+  if w = 0 then (cfgOfCall print_sinosoidal_call3 unit precision).str re     -- the constant Re(X·e^{j0})
   else
     let absPhase :=
       if deg then (cfgOfCall print_sinosoidal_call1 [] precision).str (qabs phaseDeg)
       else (cfgOfCall print_sinosoidal_call2 [] precision).str (qabs phase)
     label ++ print_sinosoidal_mul ++ (if sin then print_sinosoidal_sin else print_sinosoidal_cos)
       ++ print_sinosoidal_open ++ (if hertz then print_sinosoidal_two_pi else [])
-      ++ (if hertz then (cfgOfCall print_sinosoidal_call3 [] precision).str wHz
-          else (cfgOfCall print_sinosoidal_call4 [] precision).str w)
+      ++ (if hertz then (cfgOfCall print_sinosoidal_call4 [] precision).str wHz
+          else (cfgOfCall print_sinosoidal_call5 [] precision).str w)
       ++ print_sinosoidal_t
       ++ (if qabs phase > print_sinosoidal_phase_threshold then
             (if phase > 0 then print_sinosoidal_plus else print_sinosoidal_minus) ++ absPhase
